@@ -214,8 +214,10 @@ func frameReply(resp *http.Response, how string, n int64) {
 // errorDoc: what a renderer that "renders a descriptive error document" writes: 2 KiB,
 // i.e. longer than the 1 KiB limit and than every message of the cases.
 func errorDoc(st *status.Status) []byte {
-	return []byte(fmt.Sprintf(`{"error":%q,"message":%q,"help":%q}`, st.Code().String(), st.Message(), strings.Repeat("see the handbook. ", 120)))
+	return []byte(fmt.Sprintf(`{"error":%q,"message":%q,"help":%s}`, st.Code().String(), st.Message(), docHelp))
 }
+
+var docHelp = strconv.Quote(strings.Repeat("see the handbook. ", 120))
 
 // errorPage: what a proxy writes under its own status.
 var errorPage = []byte("<html><body><h1>error</h1><p>" + strings.Repeat("the upstream server did not answer. ", 60) + "</p></body></html>\n")
